@@ -456,6 +456,18 @@ func runC08(t *testing.T, c HTTPCase) (*h.Violation, h.Info) {
 			sink.mu.Unlock()
 			continue
 		}
+		if r.Chunked && (status == 400 || status == 411 || status == 413 || status == 415 || status == 501) && sink.n() == recBefore {
+			// a server may insist on a declared body length (the project's own client always sends one):
+			// refusing the request outright, before it reaches the store, is not a wrong answer to it
+			if dump, err := dbx.Dump(d); err != nil || dbx.DumpDiff(dump, tr.M) != "" {
+				return h.V("rejected-request-never-reaches-the-store", "%s: refused with %d, yet the state changed: %v %s", desc, status, err, dbx.DumpDiff(dump, tr.M)), info
+			}
+			sink.mu.Lock()
+			sink.lines = sink.lines[:recBefore]
+			sink.mu.Unlock()
+			info.Class("body-without-declared-length-refused")
+			continue
+		}
 		// accepted: outcome from the model under exactly the effective rules
 		info.Class("accepted")
 		if askedAddr != remote {
